@@ -1191,7 +1191,7 @@ var nodeModes = map[string]nodeMode{
 	// delay of a runnable goroutine at every scheduling decision in turn
 	"C04D": {name: "C04", behaviours: []string{"honest", "silent", "invalid-header", "lighter-fork", "false-cfheaders",
 		"garbage", "drops-on-cf", "drops-after-handshake", "garbage-after-verack"}, converge: true, delays: true},
-	"C13": {name: "C13", behaviours: []string{"no-cf-service", "no-witness", "bad-block", "bad-witness", "slow-handshake", "false-cfheaders", "false-prev-header"}, calls: true},
+	"C13": {name: "C13", behaviours: []string{"no-cf-service", "no-witness", "bad-block", "bad-witness", "slow-handshake", "false-cfheaders", "false-prev-header", "well-behaved-banned-by-user"}, calls: true},
 	// the enforcement part with one preemption at a go statement or mutex
 	// operation: a goroutine started by the ban path may run before the
 	// statements that follow its go statement
@@ -1778,6 +1778,26 @@ func (h *nodeH) callEvents(mode nodeMode) []nodeEv {
 					break
 				}
 			}
+		}})
+	}
+	for _, p := range h.peers {
+		if mode.name != "C13" || p.behaviour != "well-behaved-banned-by-user" {
+			continue
+		}
+		p := p
+		// the user bans a connected, well-behaved node, writing its IP
+		// address in another textual form than the client uses for the
+		// peer: the record is the same, so the connection has to go
+		evs = append(evs, nodeEv{"the user bans " + p.name + "'s address, written as an IPv4-mapped IPv6 address", func() {
+			host, port, err := net.SplitHostPort(p.addr)
+			if err != nil {
+				panic(verifeng.InfraError{Msg: err.Error()})
+			}
+			if err := h.cs.BanPeer("[::ffff:"+host+"]:"+port, banman.ExceededBanThreshold); err != nil {
+				h.c.Note("BanPeer: %v", err)
+			}
+			p.userBanned = true
+			verifbubble.Wait()
 		}})
 	}
 	evs = append(evs, []nodeEv{
